@@ -680,16 +680,18 @@ theorem handleReset_refines {s : Recv} (z : Nat) (h : Inv s) :
   unfold handleReset specReset
   have ha : (abs s).final = s.finalSize := rfl
   rw [ha]
+  have hhigh : s.bufStart + s.buffer.length ≤ max s.highest z := by
+    have := h.high; omega
   cases hf : s.finalSize with
   | none =>
     show Inv _ ∧ _
-    exact ⟨⟨h.wf, h.lo, h.hi, h.high⟩, rfl⟩
+    exact ⟨⟨h.wf, h.lo, h.hi, hhigh⟩, rfl⟩
   | some y =>
     by_cases hz : z = y
     · subst hz
       simp only [ne_eq, not_true_eq_false, if_false]
       show Inv _ ∧ _
-      refine ⟨⟨h.wf, h.lo, h.hi, h.high⟩, ?_⟩
+      refine ⟨⟨h.wf, h.lo, h.hi, hhigh⟩, ?_⟩
       apply RSpec.eq_of <;> simp [abs, hf]
     · simp only [ne_eq, hz, not_false_eq_true, if_true]
 
